@@ -122,7 +122,9 @@ def programs(thorough):
         progs.append(("twin", (("src", "a"), ("src", "b"), ("node", "x", j, ("a", "b")), ("src", "c"), ("src", "d"), ("node", "y", j, ("c", "d"))),
                       ("a", "b", "c", "d")))
     # fan-out in both attachment orders
-    fans = [(("map", "inc"), ("filter", "odd")), (("acc", "add", None, False), ("sw", 2, True)), (("unique", 1, "parity", True), ("partition", 2, None)),
+    fans = [(("slice", None, 2, None), ("map", "inc")), (("slice", None, 1, None), ("acc", "add", None, False)),
+            (("slice", 1, 3, None), ("sw", 2, True)),
+            (("map", "inc"), ("filter", "odd")), (("acc", "add", None, False), ("sw", 2, True)), (("unique", 1, "parity", True), ("partition", 2, None)),
             (("slice", 1, None, 2), ("collect",)), (("map", "pair"), ("punique", 2, "parity", "last"))]
     for a, b in fans:
         for x, y in ((a, b), (b, a)):
@@ -138,6 +140,8 @@ def programs(thorough):
         progs.append(("branchjoin", (("src", "s"), ("node", "m", ("map", "inc"), ("s",)), ("node", "j", j, ("s", "m"))), ("s",)))
         progs.append(("branchjoin", (("src", "s"), ("node", "m", ("map", "inc"), ("s",)), ("node", "j", j, ("m", "s"))), ("s",)))
         progs.append(("branchjoin", (("src", "s"), ("node", "m", ("filter", "odd"), ("s",)), ("node", "j", j, ("s", "m"))), ("s",)))
+    # (the same node given twice to one join is a parallel edge: union delivers once, combine_latest and
+    # zip_latest raise, zip(s, s) is pinned by the unit test test_zip_same - no stated semantics, not generated)
     # three-input joins
     for j in (("zip", ()), ("cl", None, ""), ("zl",), ("union",)):
         progs.append(("join3", (("src", "a"), ("src", "b"), ("src", "c"), ("node", "j", j, ("a", "b", "c"))), ("a", "b", "c")))
